@@ -17,12 +17,12 @@ from ..layoutref import leaf_list
 
 
 # ---------------------------------------------------------------- schemas
-def flat_schema(fields, enums=None, mid=0x65, period=None, name="Msg"):
-    fs = [(f"f{i}", i, t) for i, t in enumerate(fields)]
+def flat_schema(fields, enums=None, mid=0x65, period=None, name="Msg", names=None, sigs=None):
+    fs = [((names[i] if names else f"f{i}"), i, t) for i, t in enumerate(fields)]
     kv = {"id": mid, "device": "ecu"}
     if period is not None:
         kv["period"] = period
-    return Schema(structs=[(name, fs)], enums=dict(enums or {}), top=name, impls=[("can", name, None, kv, [])])
+    return Schema(structs=[(name, fs)], enums=dict(enums or {}), top=name, impls=[("can", name, None, kv, sigs or [])])
 
 
 def c06_family(tier, sd=0):
@@ -53,6 +53,9 @@ def c06_family(tier, sd=0):
     fam.append(flat_schema([("u", 1)] * 8))
     fam.append(flat_schema([("enum", "E1"), ("i", 5), ("enum", "E200"), ("u", 50)], E))
     fam.append(flat_schema([("u", 2), ("enum", "ignition"), ("u", 3)], {"ignition": mk_enum("ignition", 200)}))
+    # a byte-order option on an 8-bit field is the identity; it must not spread to fields with derived-looking names
+    fam.append(flat_schema([("u", 8), ("u", 16), ("i", 16), ("u", 8)], names=["temp", "temp_1", "temp_2", "temp_x"],
+                           sigs=[("temp", {"endianness": "big", "endianess": "big"})]))
     fam.append(flat_schema([("i", 64)]))
     fam.append(flat_schema([("u", 32), ("i", 32)]))
     fam.append(flat_schema([("i", 8), ("i", 8), ("i", 16), ("i", 32)]))
